@@ -200,8 +200,11 @@ def run_shard(prop, tier, seed, shard, nshards):
 
 
 def _worker_cmd(prop, tier, seed, shard, nshards, out):
-    return [PY, "-m", "wsverif", "shard", prop, "--tier", tier, "--seed", str(seed),
-            "--shard", str(shard), "--nshards", str(nshards), "--out", out]
+    # a check may ask for interpreter flags for some of its shards (e.g. -b: BytesWarning for str(bytes), as CI runs often have it)
+    mod = check_module(prop)
+    flags = list(mod.shard_pyflags(tier, shard, nshards)) if hasattr(mod, "shard_pyflags") else []
+    return [PY] + flags + ["-m", "wsverif", "shard", prop, "--tier", tier, "--seed", str(seed),
+                           "--shard", str(shard), "--nshards", str(nshards), "--out", out]
 
 
 def run_check(prop, tier, seed, jobs=None):
